@@ -6,7 +6,7 @@ ID = "C12"
 BOUNDS = {
     "quick": "evo_get_selection (if-converted, all wells symbolic 0/1: every subset of a geometry is one path) for every geometry rows 1..8 x columns 1..12 "
              "plus 16x24 and 26x48; evo_make_selection_array + evo_get_selection end to end with decode(encode) = id for all single-well, full and "
-             "2-well selections of plates 2x3, 8x12 (concrete, not solver-decided); to_hex for every dimension 1..255",
+             "2-well selections of plates 2x3, 8x12 and all single-well / full selections of every geometry up to 8x12 plus 14x3, 16x24, 26x48 (concrete, on real numpy, not solver-decided); to_hex for every dimension 1..255",
     "thorough": "every geometry rows 1..26 x columns 1..48 (1248 geometries, all subsets each)",
 }
 OUTSIDE = "dimensions >= 256 (two hex digits)"
@@ -118,9 +118,13 @@ def scenario_concrete(ctx):
             msgs.append(f"C12: to_hex({d}) = {to_hex(d)!r}")
     ROWS = "ABCDEFGHIJKLMNOPQRSTUVWXYZ"
     seen = {}
-    for R, C in ((2, 3), (8, 12)):
+    geos = [(R, C) for R in range(1, 9) for C in range(1, 13)] + [(16, 24), (14, 3), (26, 48)]
+    for R, C in geos:
         ids = [f"{ROWS[r]}{c + 1:02d}" for c in range(C) for r in range(R)]
-        sels = [[w] for w in ids] + [ids] + [[a, b] for i, a in enumerate(ids[:12]) for b in ids[i + 1:12]] + [[ids[0], ids[0]]]
+        small = R * C <= 24
+        sels = ([[w] for w in ids] if small or (R, C) == (8, 12) else [[ids[0]], [ids[-1]], [ids[len(ids) // 2]]]) + [ids] + [[ids[0], ids[0]]]
+        if (R, C) in ((2, 3), (8, 12)):
+            sels += [[a, b] for i, a in enumerate(ids[:12]) for b in ids[i + 1:12]]
         for wells in sels:
             arr = evo_make_selection_array(R, C, wells)
             s = evo_get_selection(R, C, arr)
@@ -132,6 +136,8 @@ def scenario_concrete(ctx):
             want = sorted({(ROWS.index(w[0]), int(w[1:]) - 1) for w in wells})
             if (r2, c2) != (R, C) or sorted(dec) != want:
                 msgs.append(f"C12: selection of {wells} on {R}x{C} decodes to {sorted(dec)} / {r2}x{c2}")
+            if len(s) != 4 + -(-R * C // 7):
+                msgs.append(f"C12: selection string of {R}x{C} has {len(s)} characters instead of {4 + -(-R * C // 7)}")
             key = (R, C, tuple(want))
             if seen.setdefault(s, key) != key:
                 msgs.append(f"C12: two different selections share the string {s!r}")
